@@ -63,6 +63,9 @@ def appendVarint (b : Bytes) (v : Nat) : Bytes := b ++ Pico.Wire.varint v
 /-- Go `string(b)` for a byte slice holding ASCII -/
 def stringOfBytes (b : Bytes) : String := String.ofList (b.map fun c => Char.ofNat c.toNat)
 
+/-- `math/bits.Len64(v)` as a Go `int` -/
+def bitsLen64 (v : Nat) : Int := Int.ofNat (Pico.Wire.len64 v)
+
 /-- `protowire.SizeVarint(v)` as a Go `int` -/
 def sizeVarint (v : Nat) : Int := Int.ofNat (Pico.Wire.sizeVarint v)
 
